@@ -184,7 +184,7 @@ func (fx *fexec) applyContractSig(c *Contract, sig *types.Signature, vars map[st
 	vc := fx.vc
 	pre := st.clone()
 	sc := &SpecCtx{vc: vc, vars: vars, st: pre, old: pre, pkg: pkg}
-	if (c.Arith == "bv") != vc.bv {
+	if (c.Arith == "bv") != vc.bv || (c.Arith == "mixed") != vc.mixed {
 		panic(engErr("callee " + c.Key() + " uses a different arithmetic mode"))
 	}
 	for i, r := range c.Requires {
@@ -322,7 +322,7 @@ func (fx *fexec) builtin(x *ssa.Call, b *ssa.Builtin, args []Val, st *State) Val
 		r := args[0]
 		for _, a := range args[1:] {
 			var c Term
-			if vc.bv {
+			if vc.bvType(rt) {
 				ii, _ := vc.intInfo(rt)
 				op := "bvsle"
 				if !ii.signed {
@@ -355,7 +355,7 @@ func (fx *fexec) builtin(x *ssa.Call, b *ssa.Builtin, args []Val, st *State) Val
 
 // fromInt converts an Int term to the representation of Go type t.
 func (vc *VC) fromInt(t Term, ty types.Type) Term {
-	if vc.bv {
+	if vc.bvType(ty) {
 		if ii, ok := vc.intInfo(ty); ok {
 			if c, ok := constOf(t); ok {
 				return bvLit(c, ii.w)
